@@ -242,15 +242,17 @@ CHECKS = {
                                  {"engine": "e1", "shards": 16, "args": {"bias": "chain", "cases": 800 if tier == "thorough" else 40}},
                                  {"engine": "e3", "shards": 4, "timeout_s": 3000, "args": {"bias": "mixed", "cases": 300 if tier == "thorough" else 12, "parallel": 4}},
                                  {"engine": "e3", "shards": 4, "timeout_s": 3000, "args": {"bias": "chain", "cases": 12 if tier == "thorough" else 1, "parallel": 4, "memcheck": 1}},
-                                 {"engine": "e3s", "shards": 4, "timeout_s": 3000, "args": {"cases": 60 if tier == "thorough" else 4, "rounds": 6, "threads": 6}}],
+                                 {"engine": "e3s", "shards": 4, "timeout_s": 3000, "args": {"cases": 60 if tier == "thorough" else 4, "rounds": 6, "threads": 6}},
+                                 {"engine": "e1o", "shards": 16, "args": {"cases": 8 if tier == "thorough" else 1, "max_faults": 300 if tier == "thorough" else 40}}],
         "level": "exploration",
-        "rule": "three monitors over two engines (plus e3: E1 histories against the real teosd binary, where a panic message on its output or an unexpected exit is the violation; a few of them with teosd running under valgrind memcheck - the bundled sqlite and libsecp256k1 are C - where any invalid access / use of uninitialised memory / fatal signal it reports is a violation; and the C10 scenarios run unscheduled against the real binary, where a request or block event that gets no answer in 20 s is the violation). (1) E2 scheduler: in every scheduled / free-running execution of the C10 scenarios the observer mediates every "
+        "rule": "three monitors over two engines (plus e1o: a sample of C12's outage faults - the node lost at a node RPC of a history for 0-2 polls, virtual retry clock - judged here only for "
+                "'the tower is wedged': a poll or request that never returns, a thread waiting for a lock it holds itself or that a thread waiting for the node holds after the node is back, a panic) (plus e3: E1 histories against the real teosd binary, where a panic message on its output or an unexpected exit is the violation; a few of them with teosd running under valgrind memcheck - the bundled sqlite and libsecp256k1 are C - where any invalid access / use of uninitialised memory / fatal signal it reports is a violation; and the C10 scenarios run unscheduled against the real binary, where a request or block event that gets no answer in 20 s is the violation). (1) E2 scheduler: in every scheduled / free-running execution of the C10 scenarios the observer mediates every "
                 "tower lock; a state in which no tower thread is enabled (circular wait over lock owners, or everybody waiting) is detected deterministically and "
                 "reported with holders/waiters. (2) lock-order graph over everything executed; inversions are listed as predictions, only manifested circular "
                 "waits are verdicts. (3) panic hook: any panic raised in tower code in any E2 execution or E1 history (incl. resubmission of appointments in "
                 "every lifecycle state, reorgs, purges, node verdict scripts), plus a liveness probe (one more block + one request) after every E1 history. "
                 "non-trivial = E2 execution with a context switch / E1 history with submissions in several lifecycle states.",
-        "assumptions": E1_ASSUME[:4] + ["schedules are sampled, not enumerated; at most 3 threads", "stuck states caused by a bitcoind outage are C12's business"],
+        "assumptions": E1_ASSUME[:4] + ["schedules are sampled, not enumerated; at most 3 threads", "how an outage is handled (nothing dropped, 'unavailable' answers, recovery bounds) is C12's business; only its wedge verdicts are shared"],
     },
     "C12": {
         "bins": True,
